@@ -76,6 +76,8 @@ pub enum ManifestOperation {
 pub struct Manifest {
     file: Option<tokio::fs::File>,
     enable_fsync: bool,
+    /// A failed append could not be rolled back: the content of the file is unknown.
+    broken: bool,
 }
 
 impl Manifest {
@@ -84,6 +86,7 @@ impl Manifest {
         Self {
             file: None,
             enable_fsync: false,
+            broken: false,
         }
     }
 
@@ -97,6 +100,7 @@ impl Manifest {
         Ok(Self {
             file: Some(file),
             enable_fsync,
+            broken: false,
         })
     }
 
@@ -184,11 +188,37 @@ impl Manifest {
             serde_json::to_writer(&mut json, entry)?;
         }
         serde_json::to_writer(&mut json, &ManifestOperation::End)?;
-        file.write_all(&json).await?;
-        // `tokio::fs::File` writes in the background: wait for the write and get its error
-        file.flush().await?;
-        if self.enable_fsync {
-            file.sync_data().await?;
+        if self.broken {
+            return Err(std::io::Error::other("manifest is unusable after a failed write").into());
+        }
+        let enable_fsync = self.enable_fsync;
+        let start = file.stream_position().await?;
+        let written: std::io::Result<()> = async {
+            file.write_all(&json).await?;
+            // `tokio::fs::File` writes in the background: wait for the write and get its error
+            file.flush().await?;
+            if enable_fsync {
+                file.sync_data().await?;
+            }
+            Ok(())
+        }
+        .await;
+        if let Err(e) = written {
+            // The transaction is reported as failed: what reached the file of its record must
+            // neither take effect at the next open nor stay in front of later records.
+            let undone: std::io::Result<()> = async {
+                file.set_len(start).await?;
+                file.seek(SeekFrom::Start(start)).await?;
+                if enable_fsync {
+                    file.sync_data().await?;
+                }
+                Ok(())
+            }
+            .await;
+            if undone.is_err() {
+                self.broken = true;
+            }
+            return Err(e.into());
         }
         Ok(())
     }
